@@ -3,7 +3,7 @@
 CONFIG = {
     "cmd": "c08",
     "trusted": [
-        "modelled: Value.Hash of every kind (FNV-1a 64 over type name, ':', content; little-endian child hashes; sorted keys; time.GobEncode bytes), values.Hash, values.MapHash, Copy/Clone, and the hash-table de-duplicators (ForResult.Push DISTINCT, UniqueIterator, ToUniqueArray/UNIQUE, UNION_DISTINCT, SORTED_UNIQUE, COLLECT group key)",
+        "modelled: Value.Hash of every kind (FNV-1a 64 over type name, ':', content; little-endian child hashes; sorted keys, each written as 8 little-endian bytes of its length, the key, ':'; time.GobEncode bytes), values.Hash, values.MapHash, Copy/Clone, and the hash-table de-duplicators (ForResult.Push DISTINCT, UniqueIterator, ToUniqueArray/UNIQUE, UNION_DISTINCT, SORTED_UNIQUE, COLLECT group key)",
         "the verdict compares only the equivalence induced by the hash (class ids) with structural identity decided by the model, and de-duplication outputs with first-occurrence de-duplication w.r.t. structural identity; exact hash values feed the drift diagnostic only (extra.hash_value_drift, evaluated by coqc from the harness)",
         "hash_injective_on is proved for the enumerated universe (universe 1, 1415 values) only: a 64-bit hash is not injective on all values; de-duplication exactness is proved under a no-collision hypothesis on the values that occur",
         "harness maps values returned by the implementation back to universe entries by their canonical rendering (harness/common/vals.go CoqValue); the model re-checks structural identity of the entry",
@@ -32,15 +32,22 @@ def describe(meta, fname, t):
     def val(n):
         return U[n] if 0 <= n < len(U) else "<not a universe value / construct failed>"
 
-    if kind in (0, 5):
+    if kind == 6 and i == j:
+        return {"key": "%s6|%s" % (pre, val(i)), "value": val(i), "mkind": 6, "kinds": [K[i] if i < len(K) else ""],
+                "what": "values.MapHash panics on the member map of %s" % val(i),
+                "theorem": "C08.hash_struct_eq_sound"}
+    if kind in (0, 5, 6):
         a, b = val(i), val(j)
-        via = "Value.Hash" if kind == 0 else "values.MapHash({k: v}) (COLLECT group key)"
+        via = {0: "Value.Hash", 5: "values.MapHash({k: v}) (COLLECT group key)",
+               6: "values.MapHash of the two objects' member maps"}[kind]
         kinds = [K[i] if i < len(K) else "", K[j] if j < len(K) else ""]
         delim = bool((i < len(DL) and DL[i]) or (j < len(DL) and DL[j]))
         return {"key": "%s%d|%s|%s" % (pre, kind, a, b), "a": a, "b": b, "kinds": kinds, "mkind": kind,
                 "obj_key_delim": delim and kinds == ["object", "object"],
-                "what": "%s equality does not coincide with structural identity on a=%s b=%s" % (via, a, b),
-                "theorem": "C08.hash_struct_eq_sound / hash_injective_on_universe"}
+                "what": "%s equality does not coincide with structural identity on a=%s b=%s%s" % (
+                    via, a, b, " (objects with ':' in a key: is the key still hashed behind its length?)"
+                    if delim and kinds == ["object", "object"] else ""),
+                "theorem": "C08.hash_struct_eq_sound / hash_injective_on_universe / preimage_injective_modulo_children"}
     if kind == 1:
         return {"key": "%s1|%s|%d" % (pre, val(i), j), "value": val(i), "mkind": 1, "kinds": [K[i] if i < len(K) else ""],
                 "what": "%s changes under a different insertion order of the members of %s" % (["hash", "Compare"][j if j < 2 else 0], val(i)),
@@ -68,8 +75,9 @@ def describe(meta, fname, t):
 
 
 def match_extra(case, key, value):
-    # the delimiter collision: both values are objects and a key contains ':';
-    # for a de-duplication case: the input contains such a colliding pair and no other collision
+    # "obj_key_delim" (both values are objects and a key contains ':'; for a
+    # de-duplication case: the input contains such a colliding pair and no other
+    # collision) is a descriptive field of the case; no known finding uses it any more
     if key == "obj_key_delim":
         return bool(case.get("obj_key_delim")) == bool(value)
     return False
